@@ -72,6 +72,24 @@ func TestVerifC07(t *testing.T) {
 				e.release(c07Park(e, c04GkJoin), true)
 				e.spawn(c04Op{Kind: "unsubcli", Ch: 0})
 			}}
+		case 5: // a MAP subscription still in flight (between its two requests' effects: reserved in
+			// c.mapSubscribing, parked in the node-level subscribe) when a server-side Unsubscribe arrives:
+			// the unsubscribe waits for the subscribe, which goes live and publishes its join; the
+			// unsubscribe must then tear down THAT subscription: leave and OnUnsubscribe
+			return c04Plan{Name: "map-in-flight/unsub/srv", NCh: 1, Map: true, Armed: append([]c04Gk{c04GkBrokerSub}, gates...),
+				Script: func(e *c04Eng, r *rand.Rand) {
+					c04Connect(e)
+					e.spawn(c04Op{Kind: "subcli", Ch: 0, Opts: jl, Map: true})
+					e.release(c07Park(e, c04GkSubH), true) // first page, then last page up to the node-level subscribe
+					e.spawn(c04Op{Kind: "unsubsrv", Ch: 0}) // waits on the reservation's gate
+					if p := c07Park(e, c04GkBrokerSub); p != nil {
+						e.release(p, true) // live: commit, gate closed, parked at PublishJoin; the unsubscribe wakes
+					}
+					if p := c07Park(e, c04GkJoin); p != nil {
+						e.release(p, true)
+					}
+					c07DrainOthers(e)
+				}}
 		case 4: // a failed attempt emits nothing
 			return c04Plan{Name: "failed-attempt", NCh: 1, Armed: gates, Script: func(e *c04Eng, r *rand.Rand) {
 				c04Connect(e)
